@@ -399,6 +399,10 @@ def ops19 : List (String × Op) := [
     | "viz" => do
       let lens ← field j "lens" >>= asNats
       .ok (reply (decide (Pre_viz shape.length lens)) (validate_viz shape.length lens))
+    | "tenfun_arity" => do
+      let nargs ← field j "nargs" >>= asNat
+      let others ← field j "nothers" >>= asNat
+      .ok (reply (decide (Pre_tenfunArity nargs others)) (validate_tenfunArity nargs others))
     | _ => .ok (reply (decide (Pre_spmatrix shape)) (validate_spmatrix shape))),
   ("c19_mask", fun j => do
     let shape ← field j "shape" >>= asNats
@@ -464,6 +468,10 @@ def ops19 : List (String × Op) := [
       else if t == "slice" then do let b ← field e "stop" >>= asBool; pure (KeyEntry.slice b)
       else do let n ← field e "len" >>= asNat; pure (KeyEntry.list n))
     .ok (replyInPlace (decide (Pre_spAssign key rhs)) (validate_spAssign key rhs))),
+  ("c19_sp_setsubs", fun j => do
+    let shape ← field j "shape" >>= asNats
+    let w ← field j "width" >>= asNat
+    .ok (replyInPlace (decide (Pre_setSubsWidth shape.length w)) (validate_setSubsWidth shape.length w))),
   ("c19_subdims", fun j => do
     let n ← field j "N" >>= asNat
     let len ← field j "len" >>= asNat
